@@ -154,6 +154,23 @@ class ItemListT(TypeSpec):
         return cx.itemlist(value_ref, model)
 
 
+class ObjT(TypeSpec):
+    """heap object of class `cls` with the given field types (a field type may be a TypeSpec or a constant)"""
+
+    def __init__(self, cls, fields):
+        self.cls, self.fields = cls, fields
+
+    def fresh(self, name, st):
+        from .values import ObjV
+        f = {}
+        for k, t in self.fields.items():
+            f[k] = t.fresh(f"{name}_{k}", st) if isinstance(t, TypeSpec) else t
+        return st.alloc(ObjV(self.cls, f))
+
+    def concretize(self, value, model, cx):
+        raise NotImplementedError("objects are replayed by the property's own harness")
+
+
 class Shape:
     def __init__(self, name, types, requires=None):
         self.name, self.types, self.requires = name, types, requires
@@ -180,6 +197,8 @@ class Contract:
         self.callees = dict(callees or {})
         self.defaults = dict(defaults or {})
         self.kind, self.cls, self.doc = kind, cls, doc
+        self.effect = None          # callee side effects on heap objects: effect(a, st, result)
+        self.assumed = False
         REGISTRY[key] = self
 
     def callee_key(self, local_name):
@@ -210,6 +229,9 @@ def specval(v, st=None, ex=None):
         return v.t
     if isinstance(v, Ref) and st is not None:
         o = st.deref(v)
+        from .values import ObjV
+        if isinstance(o, ObjV):
+            return NS({f: specval(x, st, ex) for f, x in o.fields.items()})
         if isinstance(o, ListV):
             if ex is not None:
                 t, _ = ex.list_term(o, st)
